@@ -58,6 +58,12 @@ def main():
     faulthandler.enable()
     with open(spec_path) as f:
         spec = json.load(f)
+    if isinstance(spec, dict) and spec.get("tz"):
+        # a shard may run under another local time zone (one with daylight saving time): what the library stores for naive
+        # date-times and reads back must not depend on where the process runs
+        import time
+        os.environ["TZ"] = spec["tz"]
+        time.tzset()
     mod = importlib.import_module(f"vf.props.{pid.lower()}")
     rec = Recorder(pid, int(shard))
     warnings.simplefilter("always")
